@@ -26,7 +26,7 @@ EXPLANATION = ('Failure-atomicity and guard rules on the CFG of FeatureRef::appl
                'value from readFeats, a cast-chain typing rule on the setting comparison, copy-constructor use at the two clone sites, '
                'the language match, and the shared tag-normalisation rule.  How need_bits are packed into 32-bit chunks and which bytes '
                'a label has are value-level and not decided.')
-FLOORS = {'NOSTRADDLE': 1, 'FAILATOMIC': 6, 'READGUARD': 1, 'NOSETTINGS': 1, 'SETTINGZEXT': 1, 'CLONE': 3, 'LANGMATCH': 4, 'INDEXTESTS': 1, 'TAGNORM': 3, 'NARROWREAD': 1}
+FLOORS = {'NOSTRADDLE': 1, 'FAILATOMIC': 6, 'READGUARD': 1, 'NOSETTINGS': 1, 'SETTINGZEXT': 1, 'CLONE': 3, 'LANGMATCH': 6, 'INDEXTESTS': 1, 'TAGNORM': 3, 'NARROWREAD': 1}
 
 
 def failatomic(run, fx):
@@ -399,8 +399,48 @@ def idorder(run, fx):
         run.held('INDEXTESTS', 'id order', '', '%d feature/name functions: no ordering by the sign of a wrapped unsigned difference' % nf)
 
 
+def langfresh(run, fx):
+    """LANGMATCH, the table side: "the font's defaults overridden by the Sill entry of that language".  In SillMap::readSill every
+    applyValToFeature() writes into an object that was created from m_defaultFeatures inside the same iteration of the language loop
+    (a fresh copy per language): an object that lives across iterations carries the overrides of the languages before it."""
+    from .util import loop_bodies
+    fn = fx.one('graphite2::SillMap::readSill')
+    lb = loop_bodies(fn)
+    n = 0
+    for e in calls_in(fn, 'graphite2::FeatureRef::applyValToFeature'):
+        n += 1
+        inst = 'language overrides applied to a fresh copy of the defaults @%s' % e['ln']
+        a = fn.strip_all_casts(fn.N(e['args'][1]))
+        while a['k'] == 'UnaryOperator' and a.get('op') == '*':
+            a = fn.strip_all_casts(fn.N(a['c'][0]))
+        if a['k'] != 'DeclRefExpr' or a.get('vid') is None:
+            run.violated('LANGMATCH', inst, fn.loc(e), 'the feature values written for a language are `%s`, not a local copy of the defaults' % fn.render(a))
+            continue
+        decl = [(d, x) for _, d in fn.elements() if d['k'] == 'DeclStmt' for x in d.get('decls', []) if x.get('vid') == a['vid']]
+        if len(decl) != 1 or decl[0][1].get('init') is None:
+            run.broken('LANGMATCH', inst, 'declaration of %s not found' % fn.render(a), fn.loc(e))
+            continue
+        d, x = decl[0]
+        cb, db = fn.block_of[e['i']], fn.block_of[d['i']]
+        loops = [h for h, body in lb.items() if cb in body]
+        outer = max(loops, key=lambda h: len(lb[h])) if loops else None
+        init = fn.render(fn.N(x['init']), resolve=True)
+        if outer is None:
+            run.broken('LANGMATCH', inst, 'the language loop around the call was not found', fn.loc(e))
+        elif not any(w['k'] == 'MemberExpr' and (w.get('d') or '').endswith('m_defaultFeatures') for w in fn.walk(x['init'])):
+            run.violated('LANGMATCH', inst, fn.loc(d), 'the per-language values `%s` are initialised from `%s`, not from the font\'s defaults' % (fn.render(a), init[:80]))
+        elif db not in lb[outer]:
+            run.violated('LANGMATCH', inst, fn.loc(d), '`%s` is created once, outside the loop over the Sill languages, and every language\'s overrides are applied to it: language i also carries '
+                         'the overrides of languages 0..i-1 (gr_face_featureval_for_lang returns another language\'s setting for a feature this language leaves at its default)' % fn.render(a))
+        else:
+            run.held('LANGMATCH', inst, fn.loc(d), 'created from m_defaultFeatures inside the language loop')
+    if n < 2:
+        run.broken('LANGMATCH', 'fresh copy per language', 'expected the two applyValToFeature calls of SillMap::readSill, found %d' % n, fn.where())
+
+
 def run(run):
     fx = run.facts('Q0')
+    langfresh(run, fx)
     lenunit(run, fx)
     idorder(run, fx)
     failatomic(run, fx)
